@@ -38,6 +38,71 @@ JUNK = [None, True, False, 0, 1, -1, 2 ** 70, -2 ** 70, 1.5, 1.0, float('inf'), 
         '9999-12-31T23:59:59-14:00', b'abc', b'\xff', b'2020-01-02', b'12']
 
 
+# hostile literals per primitive kind: the boundaries of each reader
+_DT = ['2020-13-01T00:00:00', '2020-00-10T00:00:00', '2020-02-30T00:00:00', '2021-02-29T00:00:00Z', '2020-01-02T24:00:00',
+       '2020-01-02T25:00:00Z', '2020-01-02T23:60:00', '2020-01-02T23:59:60', '2020-01-02T03:04:05+24:00',
+       '2020-01-02T03:04:05-24:00', '2020-01-02T03:04:05+99:59', '2020-01-02T03:04:05+14:00', '0000-01-01T00:00:00',
+       '0001-01-01T00:00:00+14:00', '9999-12-31T23:59:59-14:00', '2020-01-02T03:04:05.9999999', '2020-01-02T03:04:05Zjunk',
+       '2020-01-02', 'abc', '', '2020-01-02T03:04', '20200102T030405']
+KIND_JUNK = {
+    'datetime': _DT,
+    'date': ['2020-13-01', '2020-02-30', '2020-02-30Z', '2021-02-29+01:00', '0000-01-01', '2020-00-00Z', '2020-1-5', 'abc', '',
+             '2020-01-02T00:00:00', '2020-01-02+25:00'],
+    'time': ['24:00:00', '25:00:00', '23:60:00', '23:59:60', '12:00:00.', '12:00', 'abc', '', '99:99:99', '23:59:59.9999999'],
+    'duration': ['P99999999999D', '-P999999999DT1S', 'PT1x5S', 'P', 'PT', 'xyz', '', 'P1S', 'P1Y2M3DT4H5M6.7S', 'PT1e3S'],
+    'int': ['', 'abc', '1.0', '1e3', '0x10', '1_0', ' 5', '+5', '-', '9' * 1100, '9' * 5000, 'NaN', 'Infinity'],
+    'int32': ['2147483648', '-2147483649', 'abc', '', '1.5'], 'u8': ['256', '-1', 'abc', ''],
+    'decimal': ['NaN', 'sNaN', 'Infinity', '-Infinity', 'abc', '', '1e999999999', '1' * 2000, '1.5.5', '%s', '0x1'],
+    'double': ['NaN', 'inf', '-inf', '1e999', 'abc', '', '0x1p3', '1_0', '%'],
+    'bool': ['maybe', '', 'TRUE', '2', 'yes'], 'bytes': ['====', 'YQ', 'Y', 'YQ=', '\u00e9', '%%%', ''],
+    'hex': ['6', 'zz', '61 62', ''], 'uuid': ['12345678-1234-5678-1234-56781234567', 'abc', '', '{' * 40, 'urn:uuid:zz'],
+    'enum': ['blue', '', '__class__', '__init__', 'RED', 'red '], 'text': ['', '\x00' if False else 'x' * 5000],
+    'text10': ['x' * 11, ''], 'pattern': ['ABC', '', 'abc1'], 'anydict': ['abc', '', '{'], 'anyxml': ['<a', '', 'abc', '<a/><b/>'],
+}
+GENERAL_JUNK = [None, True, 0, -1, 2 ** 70, 1.5, float('inf'), float('nan'), [], [1], {}, {'a': 1}, ['a', 'b'], [None], b'abc',
+                b'\xff', b'2020-01-02', '%s%s', '5%']
+
+
+def gen_value_for_method(rng, desc, method, path):
+    """valid arguments of the method in which the path exists"""
+    params = dict(desc['methods'])[method]
+    for _ in range(50):
+        args = dict((pn, gen_value(rng, desc, ty)) for pn, ty in params)
+        try:
+            d = args
+            for x in path[:-1]:
+                d = d[x]
+            if isinstance(d, dict):
+                return args
+        except (KeyError, IndexError, TypeError):
+            continue
+    # build the spine by hand
+    args = dict((pn, gen_value(rng, desc, ty)) for pn, ty in params)
+    d = args
+    for i, x in enumerate(path[:-1]):
+        nxt = path[i + 1]
+        want = [{}] if nxt == 0 else {}
+        if isinstance(x, int):
+            while len(d) <= x:
+                d.append({})
+            if not isinstance(d[x], (dict, list)):
+                d[x] = want
+            d = d[x]
+        else:
+            if not isinstance(d.get(x), (dict, list)):
+                d[x] = want
+            d = d[x]
+    return args
+
+
+def put_at(args, path, value):
+    d = args
+    for x in path[:-1]:
+        d = d[x]
+    d[path[-1]] = value
+    return args
+
+
 def classes_of(desc):
     return dict(desc['classes'])
 
